@@ -4,16 +4,18 @@ import Driver.Common
 /-! Driver for the `Timers` model (C12).
 
 ops (macro ops executed by `harness/hcore/src/bin/timers.rs` at quiescent points):
-  `case <n>`                      fresh runtime, fresh target; clock 0
+  `case <n> [tl]`                 fresh runtime, fresh target (`tl`: a thread-local actor on its own, frozen, thread); clock 0
   `sa <p>` `si <p>` `ea <p>` `ka <p>`   send_after / send_interval / exit_after / kill_after, period p µs
   `dsa <p>` `dsi <p>` `dea <p>` `dka <p>`   the same four through a `DerivedActorRef` (same model steps)
   `adv <d>`                       tokio::time::advance(d µs), run to quiescence   (every time and duration is in µs)
   `advabort <d> <i>`              clock += d, abort timer i before the time driver runs
   `advstop <d>` `advkill <d>` `advdrain <d>`   clock += d, then the API call on the target
   `abort <i>` `stop` `kill` `drain`
+  `hold` `psrelease`              gate the target's `post_stop` / open the gate
 
 observation after each op (model and implementation, compared verbatim):
-  `t=<now> att=<id.k@t,…|-> hd=<id.k@t,…|-> res=<P|ok|err|cancelled,…|-> tgt=<Running|Stopped:<reason>@<t>>`
+  `t=<now> att=<id.k@t,…|-> hd=<id.k@t,…|-> res=<P|ok|err|cancelled,…|-> tgt=<Running|PostStop@<t>|Stopped:<reason>@<t>>`
+  (`PostStop@t`: the message loop ended at `t` and the gated `post_stop` is running)
 -/
 
 namespace Driver.C12
@@ -47,9 +49,10 @@ def parseEvs? (s : String) : Option (List (Nat × Nat × Nat)) :=
   if s == "-" then some [] else (splitOnChar s ',').mapM parseEv?
 
 def showTarget (T : Target) : String :=
-  match T.exit with
-  | some (r, t) => s!"Stopped:{r.render}@{t}"
-  | none => "Running"
+  match T.exit, T.stopping with
+  | some (r, t), _ => s!"Stopped:{r.render}@{t}"
+  | none, some (_, ts) => s!"PostStop@{ts}"
+  | none, none => "Running"
 
 /-- attempts of the sending timers beyond the lengths recorded in `old` -/
 def newAttempts (old new : List Timer) : List (Nat × Nat × Nat) :=
@@ -84,6 +87,8 @@ def parseMOp? (ws : List String) : Option MOp :=
   | ["advdrain", d] => d.toNat?.map MOp.advDrain
   | ["abort", i] => i.toNat?.map MOp.abort
   | ["stop"] => some .stop | ["kill"] => some .kill | ["drain"] => some .drain
+  | ["hold"] => some .hold
+  | ["psrelease"] => some .psrelease
   | _ => none
 
 def parseReason? (s : String) : Option Reason :=
@@ -100,6 +105,8 @@ structure ImplObs where
   hd : List (Nat × Nat × Nat)
   res : List Res
   exit : Option (Reason × Nat)
+  /-- the target reported that its message loop ended at this instant and `post_stop` runs -/
+  ps : Option Nat := none
 
 def field? (w pre : String) : Option String :=
   if w.startsWith pre then some (w.drop pre.length).toString else none
@@ -115,14 +122,17 @@ def parseImpl? (s : String) : Option ImplObs :=
       let hd ← parseEvs? (← field? hd "hd=")
       let res ← field? res "res="
       let res ← if res == "-" then some [] else (splitOnChar res ',').mapM parseRes?
-      let exit ← if tgt == "Running" then some none else
+      let ps ← match field? tgt "PostStop@" with
+        | some ts => ts.toNat?.map some
+        | none => some none
+      let exit ← if tgt == "Running" || ps.isSome then some none else
         match field? tgt "Stopped:" with
         | some rest =>
           match rest.splitOn "@" with
           | [r, te] => do pure (some (← parseReason? r, ← te.toNat?))
           | _ => none
         | none => none
-      pure { t, att, hd, res, exit }
+      pure { t, att, hd, res, exit, ps }
     | _ => none
   | _ => none
 
@@ -159,6 +169,10 @@ def absorb (v : State) (mop : MOp) (o : ImplObs) : State × List String := Id.ru
     | .kill | .advKill _ => { T with manualKill := true }
     | _ => T
   let T := { T with handled := T.handled ++ o.hd }
+  -- the message loop ended (observed from inside `post_stop`): nothing is accepted from then on
+  let T := match o.ps with
+    | some ts => { T with closedAt := some (T.closedAt.getD ts) }
+    | none => T
   let T ← match T.exit, o.exit with
     | none, some (r, te) => pure { T with exit := some (r, te), closedAt := some (T.closedAt.getD te) }
     | some e, some e' => do
@@ -177,7 +191,7 @@ def firstBad (s : State) (f : State → Timer → Bool) : String :=
 
 def step (st : DState) (op impl : String) : DState × StepOut :=
   match (words op).filter (fun w => !w.startsWith "h=") with
-  | ["case", _] => ({}, { model := "ok" })
+  | "case" :: _ => ({}, { model := "ok" })
   | ws =>
     match parseMOp? ws with
     | none => (st, { model := "bad-op" })
@@ -189,6 +203,7 @@ def step (st : DState) (op impl : String) : DState × StepOut :=
       | some o =>
         let (v', errs) := absorb st.v mop o
         let orc := errs
+          ++ (if v'.timers.all (diesOk v') then [] else [s!"C12.dies {firstBad v' diesOk}"])
           ++ (if ok v' then [] else [s!"C12.ok {firstBad v' timerOk}"])
           ++ (if okPrompt v' then [] else [s!"C12.okPrompt {firstBad v' timerPromptOk}"])
         let resChanged := (m'.timers.map (·.res)).take st.m.timers.length != st.m.timers.map (·.res)
